@@ -323,6 +323,28 @@ class NPShim:
 
     empty = zeros
 
+    def full(self, shape, fill_value, dtype=None):
+        return self._full(shape, P._to_rat(unwrap(fill_value)) if not isinstance(unwrap(fill_value), Rat) else unwrap(fill_value))
+
+    def full_like(self, x, fill_value, dtype=None):
+        return self.full(to_obj(unwrap(x)).shape, fill_value)
+
+    def count_nonzero(self, x, axis=None):
+        x = to_obj(unwrap(x))
+        if not is_arr(x):
+            return int(bool(x))
+        if axis is not None:
+            return np.apply_along_axis(lambda r: sum(1 for v in r if bool(v)), axis, x)
+        return sum(1 for v in x.flat if bool(v))
+
+    def flatnonzero(self, x):
+        x = to_obj(unwrap(x))
+        return np.flatnonzero(np.array([bool(v) for v in np.asarray(x, dtype=object).flat], dtype=bool))
+
+    def nonzero(self, x):
+        x = np.asarray(to_obj(unwrap(x)), dtype=object)
+        return np.nonzero(np.array([bool(v) for v in x.flat], dtype=bool).reshape(x.shape))
+
     def zeros_like(self, x, dtype=None):
         return self._full(to_obj(unwrap(x)).shape, P.ZERO)
 
@@ -357,6 +379,20 @@ class NPShim:
 
     def hstack(self, xs):
         return np.hstack([np.atleast_1d(to_obj(unwrap(x))) for x in xs])
+
+    def diff(self, x, n=1, axis=-1):
+        x = np.asarray(to_obj(unwrap(x)), dtype=object)
+        for _ in range(int(n)):
+            x = np.moveaxis(x, axis, 0)
+            x = x[1:] - x[:-1]
+            x = np.moveaxis(x, 0, axis)
+        return x
+
+    def append(self, arr, values, axis=None):
+        a_, v_ = np.asarray(to_obj(unwrap(arr))), np.asarray(to_obj(unwrap(values)))
+        if a_.dtype != object and v_.dtype != object:
+            return np.append(a_, v_, axis=axis)
+        return np.append(a_.astype(object), v_.astype(object), axis=axis)
 
     def concatenate(self, xs, axis=0):
         return np.concatenate([to_obj(unwrap(x)) for x in xs], axis=axis)
@@ -1454,6 +1490,14 @@ class Interp:
                         out = rat_map(lambda a_, b_: self.pick(which, a_, b_), out, arr[k])
                     return out
                 return red
+            if name == "fill":
+                def _fill(value, v=v):
+                    val = unwrap(value)
+                    val = val if isinstance(val, Rat) else P._to_rat(val)
+                    for idx in np.ndindex(v.shape):
+                        v[idx] = val
+                    return None
+                return _fill
             if name == "flags":
                 # x.flags.writeable = False and friends: no effect on values (a later write to a read-only array is the program's own error)
                 import types as _types
